@@ -17,7 +17,9 @@ class RegexConst:
 
 class ObjConst:
     """an object seen only through its class-level constants (self.X where X is assigned a constant in the class body)"""
-    def __init__(self, attrs): self.attrs = attrs
+    def __init__(self, attrs, methods=None):
+        self.attrs = attrs
+        self.methods = methods or {}       # name -> FuncConst, called with the object as first argument
 
 
 class FuncConst:
@@ -29,7 +31,9 @@ class _Return(Exception):
 
 
 class _Raise(Exception):
-    pass
+    def __init__(self, name=None):
+        Exception.__init__(self, name)
+        self.name = name
 
 
 class _Break(Exception):
@@ -186,7 +190,8 @@ class Folder:
         if isinstance(st, ast.Return):
             raise _Return(self.expr(st.value, env) if st.value else None)
         if isinstance(st, ast.Raise):
-            raise _Raise()
+            ex = st.exc.func if isinstance(st.exc, ast.Call) else st.exc
+            raise _Raise(ast.unparse(ex).split('.')[-1] if ex is not None else None)
         if isinstance(st, ast.Pass): return
         if isinstance(st, ast.Assert):
             if not self.expr(st.test, env): raise _Raise()
@@ -215,6 +220,10 @@ class Folder:
             for a, b in zip(t.elts, vs): self.assign(a, b, env)
         elif isinstance(t, ast.Subscript):
             self.expr(t.value, env)[self.expr(t.slice, env)] = v
+        elif isinstance(t, ast.Attribute):
+            o = self.expr(t.value, env)
+            if not isinstance(o, ObjConst): raise Unfoldable('attribute store on %s' % type(o).__name__)
+            o.attrs[t.attr] = v
         else: raise Unfoldable('assign target %s' % type(t).__name__)
 
     # expressions --------------------------------------------------------
@@ -348,6 +357,7 @@ class Folder:
         if isinstance(v, _datetime.date) and e.attr in ('year', 'month', 'day'): return getattr(v, e.attr)
         if isinstance(v, ObjConst):
             if e.attr in v.attrs: return v.attrs[e.attr]
+            if e.attr in v.methods: return ('recmeth', v, v.methods[e.attr])
             raise Unfoldable('attribute %s of the object' % e.attr)
         if isinstance(v, RegexConst) and e.attr in ('pattern', 'flags'): return getattr(v, e.attr)
         if isinstance(v, RegexConst) and e.attr in ('match', 'search', 'fullmatch'): return ('rxbound', v, e.attr)
@@ -393,7 +403,16 @@ class Folder:
         if callable(f) and (f in BUILTINS.values() or f in PURE_CALLABLES): return f(*args, **kw)
         raise Unfoldable('call of %r' % (f,))
     def call(self, fc, args, kw):
+        fn = fc.node
+        env = self.bind_call(fc, args, kw)
+        try:
+            for s in fn.body: self.stmt(s, env)
+        except _Return as r:
+            return r.v
+        return None
+    def bind_call(self, fc, args, kw):
         fn = fc.node; a = fn.args
+        kw = dict(kw)
         env = dict(fc.env)
         pos = [x.arg for x in a.posonlyargs + a.args]
         if len(args) > len(pos) and not a.vararg: raise Unfoldable('too many args')
@@ -404,12 +423,13 @@ class Folder:
             if n in kw: env[n] = kw.pop(n)
             elif n in defaults: env[n] = self.expr(defaults[n], fc.env)
             else: raise Unfoldable('missing arg %s' % n)
+        for x in a.kwonlyargs:
+            if x.arg in kw: env[x.arg] = kw.pop(x.arg)
+        for x, d in zip(a.kwonlyargs, a.kw_defaults):
+            if x.arg not in env or x.arg in fc.env and x.arg not in kw and env.get(x.arg) is fc.env.get(x.arg):
+                if d is not None and x.arg not in env: env[x.arg] = self.expr(d, fc.env)
         if kw: raise Unfoldable('kwargs')
-        try:
-            for s in fn.body: self.stmt(s, env)
-        except _Return as r:
-            return r.v
-        return None
+        return env
 
 
 def _load(t):
